@@ -165,6 +165,13 @@ impl<'a> Choice<'a> {
         }
         v
     }
+    /// The next `k` bytes (or fewer) as a slice of the underlying sequence (allocation-free).
+    pub fn take(&mut self, k: usize) -> &'a [u8] {
+        let p = self.pos.min(self.data.len());
+        let e = p.saturating_add(k).min(self.data.len());
+        self.pos = self.pos.saturating_add(k);
+        &self.data[p..e]
+    }
     /// The unread tail (raw mode: the tail *is* the payload).
     pub fn rest(&mut self) -> &'a [u8] {
         let p = self.pos.min(self.data.len());
